@@ -43,6 +43,11 @@ theorem sim_throw {P : α → Prop} (e : Err) : Sim (V := V) n P (M.throw e) (M.
   intro st hinv
   exact ⟨hinv, rfl, fun y hy => by cases hy⟩
 
+theorem sim_ofExcept {P : α → Prop} (r : Except Err α) (h : ∀ x, r = .ok x → P x) :
+    Sim (V := V) n P (M.ofExcept r) (M.ofExcept r) := by
+  intro st hinv
+  exact ⟨hinv, rfl, fun y hy => h y hy⟩
+
 theorem sim_weaken {P Q : α → Prop} {m : M (St V) α} {ma : M (ATab V) α}
     (h : Sim n P m ma) (hpq : ∀ x, P x → Q x) : Sim n Q m ma := by
   intro st hinv
